@@ -193,7 +193,7 @@ def loop0_spec():
     havoc = {n: (lambda n: lambda I: I.fresh(n, RealS))(n) for n in TOTALS}
     for var, (g, record) in MAPS.items():
         havoc[var] = (lambda var, g, record: lambda I: fresh_map(I, var, KEYS[g][0], record))(var, g, record)
-    return LoopSpec(inv, havoc, kind='auxiliary', unfold=unfold)
+    return LoopSpec(inv, havoc, kind='property', unfold=unfold)       # the statement's sums and groupings, for the transactions read so far
 
 
 def frame_loop_spec():
